@@ -31,7 +31,9 @@ for line in (V / 'properties.jsonl').read_text().splitlines():
         avoid = ('Changes of the following kinds were already produced by earlier seeders; yours must be DIFFERENT in root cause and in what they need to manifest (other functions / other mechanisms of the property):\n'
                  + ''.join(f'  - {c}\n' for c in used[pid]) + '\n')
     extra = SHAPELY if pid in ('C04', 'C05') else ''
-    if rnd not in ('', '2'):
+    if rnd == '5':
+        extra += '\nIn this round avoid memoisation / stale-cache ideas and anything similar to the list above. Prefer: an error/exception path that leaves something half-done or reports the wrong thing; a numerical slip (precision, dtype, unit, sign, rounding direction, degrees vs radians, inclusive vs exclusive) confined to one branch or one range of values; an argument order or default-value change that only matters for a non-default call; a condition that is right for scalars but wrong for arrays (or the reverse).\n'
+    elif rnd not in ('', '2'):
         extra += '\nIn this round avoid memoisation / stale-cache ideas (used a lot already). Prefer: a wrong boundary or comparison, a unit or sign slip confined to one branch, an ordering problem between two steps, a check applied to the wrong object, an exception path that skips a clean-up, two sites that must agree and no longer do.\n'
     t = tmpl.replace('@TREE@', tree).replace('@PROPERTY@', prop).replace('@AVOID@', avoid).replace('@EXTRA@', extra)
     Path(f'/tmp/seed{rnd}-{pid}.prompt.txt').write_text(t)
